@@ -319,6 +319,7 @@ theorem po_parseMsg (G : AllGuards) (hmin : Gen.Codec.chain_minlen_check = true)
       · intro ps _
         split
         · rename_i c _ ct inner hl
+          unfold finishSK
           split
           · simp
           · apply protocolOnly_bind
@@ -327,6 +328,7 @@ theorem po_parseMsg (G : AllGuards) (hmin : Gen.Codec.chain_minlen_check = true)
               apply protocolOnly_bind
               · apply po_parseChain G hmin; omega
               · intro _ _; simp
+        · split <;> simp
         · simp
 
 end PyIkev2.Impl
